@@ -1,11 +1,13 @@
 #!/bin/bash
 # usage: confirm_seed.sh <PROP> <a|b>   -- confirms a sub-agent's seeded change in its scratch worktree
 # (suite passes with the change, demo fails with it and passes without) and files it under /verif/seeded/.
-P=$1; V=$2; W=/tmp/wt/$P; O=$W/_out/$V
+P=$1; V=$2; ROOT=${WT_ROOT:-/tmp/wt}; W=$ROOT/$P; O=$W/_out/$V
+# round 2: WT_ROOT=/tmp/wt2 ID_AS=c|d files the change under <PROP>-<ID_AS>
+IDV=${ID_AS:-$V}
 cd $W || exit 9
 git checkout -q -- . ; rm -f harness/tests/seeded_demo_*.rs
 DEMO_PATH=$(grep -o '[A-Za-z0-9_/.-]*seeded_demo[A-Za-z0-9_]*\.rs' $O/demo_path.txt | head -1)
-DEMO_PATH=${DEMO_PATH#/tmp/wt/$P/}
+DEMO_PATH=${DEMO_PATH#$W/}
 [ -z "$DEMO_PATH" ] && DEMO_PATH=harness/tests/seeded_demo_$V.rs
 TEST=$(basename $DEMO_PATH .rs)
 git apply $O/patch.diff || { echo "$P-$V: patch does not apply"; exit 8; }
@@ -17,9 +19,9 @@ cargo test -p harness --test $TEST --offline > $O/demo_without.log 2>&1; WITHOUT
 rm -f $DEMO_PATH
 echo "$P-$V: suite=[$S] demo_with_change_exit=$WITH demo_without_change_exit=$WITHOUT"
 if echo "$S" | grep -q "254 passed" && [ $WITH -ne 0 ] && [ $WITHOUT -eq 0 ]; then
-  D=/verif/seeded/$P-$V; mkdir -p $D
+  D=/verif/seeded/$P-$IDV; mkdir -p $D
   cp $O/patch.diff $D/patch.diff; cp $O/demo.rs $D/demo.rs
-  python3 - "$P" "$V" "$O" "$D" "$DEMO_PATH" "$S" <<'PY'
+  python3 - "$P" "$IDV" "$O" "$D" "$DEMO_PATH" "$S" <<'PY'
 import json,sys
 P,V,O,D,DP,S=sys.argv[1:7]
 try: m=json.load(open(O+'/meta.json'))
